@@ -6,6 +6,8 @@ import sys
 
 VERIF = os.path.dirname(os.path.abspath(__file__))
 PY = os.path.join(VERIF, ".venv", "bin", "python")
+if not os.path.exists(PY):
+    PY = "/verif/.venv/bin/python"      # snapshot worktrees (vp run) reuse the overlay built by setup.sh
 
 
 def main():
